@@ -133,28 +133,65 @@ impl CaseWriter {
     }
 }
 
-// ---- watchdog: a case that makes no progress for WATCHDOG_SECS is a hang of the implementation
+// ---- watchdog: a case that makes no progress is a hang of the implementation.  "No progress" is
+// measured in CPU time of this process (an endless loop in the implementation burns CPU; a harness
+// that is merely starved on a loaded machine does not), with a generous wall-clock limit as the
+// fallback for a process that waits for ever (a blocked child).
 use std::sync::atomic::{AtomicU64, Ordering};
 static LAST_BEAT: AtomicU64 = AtomicU64::new(0);
+static LAST_BEAT_CPU_MS: AtomicU64 = AtomicU64::new(0);
 static CURRENT: std::sync::Mutex<String> = std::sync::Mutex::new(String::new());
+/// CPU seconds without a heartbeat
 pub const WATCHDOG_SECS: u64 = 30;
+/// wall-clock seconds without a heartbeat
+pub const WATCHDOG_WALL_SECS: u64 = 600;
 fn now() -> u64 {
     std::time::SystemTime::now().duration_since(std::time::UNIX_EPOCH).unwrap().as_secs()
 }
+/// user + system CPU time of a process in milliseconds (Linux: /proc/<pid>/stat, 100 ticks per second)
+pub fn cpu_ms_of(pid: u32) -> Option<u64> {
+    let text = std::fs::read_to_string(format!("/proc/{}/stat", pid)).ok()?;
+    // the command name (field 2) is in parentheses and may contain spaces
+    let rest = &text[text.rfind(')')? + 1..];
+    let f: Vec<&str> = rest.split_whitespace().collect();
+    // rest starts at field 3 (state): utime = field 14, stime = field 15
+    let utime: u64 = f.get(11)?.parse().ok()?;
+    let stime: u64 = f.get(12)?.parse().ok()?;
+    Some((utime + stime) * 10)
+}
+fn own_cpu_ms() -> u64 {
+    cpu_ms_of(std::process::id()).unwrap_or(0)
+}
 pub fn heartbeat() {
     LAST_BEAT.store(now(), Ordering::Relaxed);
+    LAST_BEAT_CPU_MS.store(own_cpu_ms(), Ordering::Relaxed);
 }
 pub fn describe_current(s: &str) {
     *CURRENT.lock().unwrap() = s.to_string();
     heartbeat();
+}
+/// a child process is over its limit: `cpu_secs` of CPU time used, or `wall_secs` elapsed
+pub fn child_expired(pid: u32, started: std::time::Instant, cpu_secs: u64, wall_secs: u64) -> bool {
+    if started.elapsed().as_secs() > wall_secs {
+        return true;
+    }
+    matches!(cpu_ms_of(pid), Some(ms) if ms > cpu_secs * 1000)
 }
 pub fn start_watchdog() {
     heartbeat();
     std::thread::spawn(|| loop {
         std::thread::sleep(std::time::Duration::from_secs(1));
         let last = LAST_BEAT.load(Ordering::Relaxed);
-        if now().saturating_sub(last) > WATCHDOG_SECS {
-            eprintln!("HANG: the implementation made no progress for {}s in: {}", WATCHDOG_SECS, CURRENT.lock().unwrap());
+        let last_cpu = LAST_BEAT_CPU_MS.load(Ordering::Relaxed);
+        let cpu = own_cpu_ms().saturating_sub(last_cpu) / 1000;
+        let wall = now().saturating_sub(last);
+        if cpu > WATCHDOG_SECS || wall > WATCHDOG_WALL_SECS {
+            eprintln!(
+                "HANG: the implementation made no progress for {}s of CPU time ({}s wall clock) in: {}",
+                cpu,
+                wall,
+                CURRENT.lock().unwrap()
+            );
             std::process::exit(42);
         }
     });
